@@ -107,7 +107,7 @@ pub fn check_c01(h: &History) -> Result<CaseInfo, Failure> {
 pub fn run_c01(seed: u64, cases: u64, threads: usize) -> (Outcome, String) {
     (
         run_prop(seed, cases, threads, || history_strategy(MAX_LEN), check_c01),
-        "valid builder histories (add/remove/close, <=48 requests, shapes size=k*align, align 1..16, ZST, \
+        "valid builder histories (add/remove/close, <=48 requests, shapes size=k*align with align up to 4096, one in ten with a size that is not a multiple of its alignment, ZST, \
          per-variant strategy mixture) run against the native builder; after every close and on the built \
          definition all non-zero-size data of the variant must be pairwise disjoint. non-trivial: >= 3 \
          variants and a datum placed below the previous variant's end (gap reused); distinct by hash of the history"
@@ -294,7 +294,14 @@ pub fn check_c03(h: &History) -> Result<CaseInfo, Failure> {
             }
         }
     }
-    for (v, list) in observe_definition(&def).iter().enumerate() {
+    // Looking a placed datum up in the built definition panics when it is not there any more.
+    let observed = catch_unwind(AssertUnwindSafe(|| observe_definition(&def))).map_err(|e| {
+        Failure::new(
+            "datum-moved",
+            format!("built definition: a datum listed by a variant cannot be looked up any more ({})", panic_message(e)),
+        )
+    })?;
+    for (v, list) in observed.iter().enumerate() {
         for d in list {
             comparisons += 1;
             if fixed.get(&d.id).map(|x| x.0) != Some(d.offset) {
@@ -305,8 +312,13 @@ pub fn check_c03(h: &History) -> Result<CaseInfo, Failure> {
             }
         }
     }
-    for (&id, &(off, _)) in &fixed {
-        let now = def[DatumId::from(id)].details().offset();
+    for (&id, &(off, at)) in &fixed {
+        let now = catch_unwind(AssertUnwindSafe(|| def[DatumId::from(id)].details().offset())).map_err(|e| {
+            Failure::new(
+                "datum-moved",
+                format!("built definition: datum id {} placed at {} in variant {} cannot be looked up any more ({})", id, off, at, panic_message(e)),
+            )
+        })?;
         if now != off {
             return Err(Failure::new(
                 "datum-moved",
@@ -423,7 +435,37 @@ pub fn recorded_names() -> String {
     s
 }
 
-/// Digest of everything observable: offsets, Display, generated code.
+/// Replays a definition through the conversion helper into a native builder: (target layout, generated code).
+fn via_helper(
+    def: &truc::record::definition::RecordDefinition<truc::record::definition::NativeDatumDetails>,
+    strat: Strat,
+) -> Option<(Vec<Vec<DatumObs>>, String)> {
+    struct Ctx<'a> {
+        b: NativeRecordDefinitionBuilder<&'a HostTypeResolver>,
+        strat: Strat,
+    }
+    static HOST: HostTypeResolver = HostTypeResolver;
+    let mut ctx = Ctx { b: NativeRecordDefinitionBuilder::new(&HOST), strat };
+    let res = catch_unwind(AssertUnwindSafe(|| {
+        convert_record_definition(
+            def,
+            |ctx: &mut Ctx, datum| ctx.b.copy_datum(datum),
+            |ctx: &mut Ctx, id| ctx.b.remove_datum(id),
+            |ctx: &mut Ctx| close_with(&mut ctx.b, ctx.strat),
+            &mut ctx,
+        )
+    }));
+    match res {
+        Ok(Ok(_)) => {}
+        _ => return None,
+    }
+    let target = catch_unwind(AssertUnwindSafe(|| ctx.b.build())).ok()?;
+    let code = catch_unwind(AssertUnwindSafe(|| generate(&target, &config_for(0)))).ok()?;
+    Some((observe_definition(&target), code))
+}
+
+/// Digest of everything observable: offsets, Display, generated code (also under a user-written
+/// strategy and through the conversion helper).
 pub fn digest_of(h: &History, sel: usize) -> Option<String> {
     let (trace, def) = run_native(h);
     let def = def?;
@@ -435,6 +477,16 @@ pub fn digest_of(h: &History, sel: usize) -> Option<String> {
         s.push_str(&def.to_string());
         s.push_str(&generate(&def, &config_for(sel)));
         s.push_str(&recorded_names());
+        if let (tu, Some(du)) = with_user_strategy(|| run_native(h)) {
+            for cl in &tu.closes {
+                s.push_str(&format!("{:?}|{:?}\n", cl.list, cl.all_offsets));
+            }
+            s.push_str(&format!("{:?}", observe_definition(&du)));
+        }
+        if let Some((layout, code)) = via_helper(&def, h.final_strat) {
+            s.push_str(&format!("{:?}", layout));
+            s.push_str(&code);
+        }
         s
     }))
     .ok()?;
@@ -498,6 +550,34 @@ pub fn check_c19(h: &History) -> Result<CaseInfo, Failure> {
     if recorded_names() != recorded_names() {
         return Err(Failure::new("names-differ", "the type names recorded for a fixed list of types differ between two calls"));
     }
+    // The same requests under a strategy written by the user, whose layout depends on the order in which
+    // the builder hands over the pending additions and removals.
+    let user = |h: &History| with_user_strategy(|| run_native(h));
+    if let ((t1, Some(u1)), (t2, u2)) = (user(h), user(h)) {
+        let same = match &u2 {
+            Some(u2) => {
+                observe_definition(&u1) == observe_definition(u2)
+                    && t1.closes.iter().zip(t2.closes.iter()).all(|(a, b)| a.list == b.list && a.all_offsets == b.all_offsets)
+            }
+            None => false,
+        };
+        if !same {
+            return Err(Failure::new(
+                "offsets-differ",
+                "two replays of the same history under a user-written closing strategy (slot reuse in request order) gave different layouts",
+            ));
+        }
+    }
+    // The same definition replayed twice through the conversion helper into a native builder.
+    if let (Some(a), Some(b)) = (via_helper(&def, h.final_strat), via_helper(&def, h.final_strat)) {
+        bytes += a.1.len() as u64;
+        if a.0 != b.0 {
+            return Err(Failure::new("offsets-differ", "replaying one definition twice through the conversion helper gave different target layouts"));
+        }
+        if a.1 != b.1 {
+            return Err(Failure::new("code-differs", "replaying one definition twice through the conversion helper gave different generated code"));
+        }
+    }
     let (_c, mut info) = base_info(&trace);
     info.counters.push(("generated_bytes_compared", bytes));
     info.nontrivial = c19_nontrivial(&trace);
@@ -528,7 +608,9 @@ pub fn run_c19(seed: u64, cases: u64, threads: usize) -> (Outcome, String) {
         run_prop(seed, cases, threads, || history_strategy(MAX_LEN), check_c19),
         "in-process part: valid builder histories as for C01 replayed twice; offsets after every close, the built \
          variants, Display and generate() output (4 fragment selections, generated twice on one definition and once on \
-         the second replay) must be identical. cross-process part: see `cross_process` in this file. non-trivial: >= 2 \
+         the second replay) must be identical; so must two replays under a user-written closing strategy whose layout depends on \
+         the order in which pending removals and additions are handed over (slot reuse), and two replays of the built \
+         definition through the conversion helper (target layout and code). cross-process part: see `cross_process` in this file. non-trivial: >= 2 \
          data of equal size added in one variant (tie-breaking) and >= 2 distinct type names; distinct by hash of the history"
             .into(),
     )
